@@ -759,7 +759,8 @@ def make_regex_text_rule(rid, cfg):
 
 
 def rules(tier):
-    from . import carry, c04
+    from . import carry, c04, serlayout
     return [rule_build, rule_both, rule_struct, rule_types, rule_guard, rule_witness, rule_regex, make_regex_text_rule("R-C19-regextext", "serde"),
+            serlayout.make_rule("R-C19-layout", 40),
             carry.make_clone_rule("R-C19-clone", c04.ALL_CRATES, 40),
             carry.make_accessor_rule("R-C19-accessor", c04.ALL_CRATES, 80)]
